@@ -16,7 +16,7 @@ from .core import FuncNode, Module, Repo, call_name, dotted, src
 BUILTIN_RAISES = {
     "int": {"ValueError"},  # int("x")
     "float": {"ValueError"},  # float("x")
-    "json.loads": {"JSONDecodeError"},  # malformed JSON
+    "json.loads": {"JSONDecodeError", "RecursionError"},  # malformed JSON; deeply nested arrays/objects ("[" * 2000) exhaust the recursion limit of the C scanner
     "json.load": {"JSONDecodeError"},
     "open": {"FileNotFoundError"},  # missing path (read modes)
 }
